@@ -31,18 +31,25 @@ class Check(PropertyCheck):
                   "`expand_cycle_is_error` (any compression-pointer cycle, with or without labels, reached from an owner/"
                   "question name or from a name inside record data is a parse error; `cache_stays_sound` shows the cache "
                   "invariant holds throughout a decode), plus `pointer_loop_is_error`, `expand_loop_is_error`. "
-                  "`reencode_stable_partial` (a decoded message re-encodes and decodes to itself unless a record's data "
-                  "did not match the layout of its type) with `reencode_stable_counterexample` for finding F-C25a; "
+                  "`cyclic_first_name_is_rejected` (input-level form, no cache hypothesis). Re-encoding: "
+                  "`reencode_stable_matched` - for every byte string all of whose records match the layout of their type "
+                  "(flag of the instrumented decoder `unpackT`, `unpackT_erases`; `expanded_by_layout_is_plain`) the decoded "
+                  "message re-encodes and decodes to itself; `reencode_stable_partial` (same with the guard on the decoded "
+                  "data); counter-examples `reencode_stable_counterexample` (F-C25a), `reencode_rejected_counterexample` "
+                  "(F-C25c), `roundtrip_fallback_counterexample` (F-C25b) mark the exact boundary: records in the fallback; "
                   "`opaque_types_bytewise`. Tie: the model PREDICTS decode -> re-encode -> decode from the input bytes "
                   "alone (driver op chain) and encode -> decode from a constructed message (op rt); names at arbitrary "
                   "offsets (all pointer graphs on <=2/3 slots), record-data expansion windows, pointer-only cycles inside "
-                  "record data of every name-bearing type, and the Lean rdataPlain predicate against its Python twin.")
+                  "record data of every name-bearing type; the Lean predicates rdataPlain, wellFormedAscii (op wfascii) and the "
+                  "matched flag of unpackT (op unpackt) against their Python twins on every message / byte-string case.")
     level_note = ("trusted: Lean kernel; hand-written model tied by the differential run. Python's idna codec is a parameter "
                   "of the model only for labels containing xn-- (decode) and non-ASCII text (encode); no law about it is "
                   "assumed; in the driver it is a table recorded from the real codec per case (a reply that depends on a "
-                  "missing entry is reported as idna-miss). reencode_stable is proved only as `_partial`: records of a "
-                  "name-bearing type whose data does not match the type's layout keep the heuristic pointer expansion that "
-                  "test_dns.py::test_packing pins and are not stable under re-encoding (F-C25a, counter-example proved). "
+                  "missing entry is reported as idna-miss). The last clause of C25 (re-encoding) is proved for every input whose "
+                  "records match their layouts (`reencode_stable_matched`) and for every message the C26 specification decoder "
+                  "reads (`spec_readable_reencode_stable`); it FAILS, with proved counter-examples, for records of a name-bearing "
+                  "type whose data does not match the type's layout: they keep the heuristic pointer expansion that "
+                  "test_dns.py::test_packing pins (findings F-C25a, F-C25b, F-C25c). "
                   "DNSMessage.packed does not compress, so there is no theorem about pointers written by the packer; what a "
                   "compressing sender may write and how the decoder reads it is C26 (`compressed_name_read`). "
                   "Defects repaired by fix: commits in /repo are listed in known/C25.json.")
@@ -579,7 +586,9 @@ class Check(PropertyCheck):
             if obs["r"] != "err":
                 names = list(self._names(obs["r"][3:]))
                 if obs["packed"] != "err": bufs.append(unhx(obs["packed"]))
-            return [f"chain {D.idna_table(bufs, names)} {case['buf_hex']}"]
+            tbl = D.idna_table(bufs, names)
+            # + the instrumented decoder of `reencode_stable_matched`: its flag against the Python twin (layout_mismatch)
+            return [f"chain {tbl} {case['buf_hex']}", f"unpackt {tbl} {case['buf_hex']}"]
         if op == "plain":
             return [f"plain {case['ty']} {case['data_hex']}"]
         if op == "name":
@@ -598,7 +607,12 @@ class Check(PropertyCheck):
             out = [obs["r"]]
             if "packed" in obs: out.append(ok(obs["packed"]))
             if "back" in obs: out.append(obs["back"])
-            return [" | ".join(out)]
+            if obs["r"] == "err": t = "err"
+            else:
+                raw = D.locate_records(unhx(case["buf_hex"]))
+                lay = D.code_layout()
+                t = obs["r"] + (" ?" if raw is None else " 0" if any(D.layout_mismatch(lay, ty, d) for ty, d in raw) else " 1")
+            return [" | ".join(out), t]
         return [obs["r"]]
 
     # ------------------------------------------------------------------ evidence
